@@ -28,6 +28,11 @@ def scenarios(tier, seed):
     out.append(tc.scenario("hext", [tc.cell(i, i * far, level=1) for i in range(2)], [{"iter": 3, "do": "small", "cell": 0}, {"iter": 12, "do": "small", "cell": 1}], dt_ns=100, S_ns=100, T_ns=6000))
     out.append(tc.scenario("hmix", [tc.cell(i, i * far, level=2) for i in range(3)], [{"iter": 0, "do": "ready", "cell": 1}, {"iter": 51, "do": "small", "cell": 0},
                                                                                    {"iter": 55, "do": "ready", "cell": 3}], dt_ns=100, S_ns=500, T_ns=10500))
+    # populations made of static cells only (an ECM and a static cell: nothing to integrate), from the start and after the last
+    # mobile cell has been removed: simulated time has to advance all the same, or the run never reaches T
+    out.append(tc.scenario("hstat", [tc.cell(0, 0, level=1, ctype=4), tc.cell(1, far, level=1, ctype=1)], [], dt_ns=100, S_ns=300, T_ns=2000, max_iter=200))
+    out.append(tc.scenario("hstat2", [tc.cell(0, 0, level=1), tc.cell(1, far, level=1, ctype=4), tc.cell(2, 2 * far, level=1, ctype=4)], [{"iter": 3, "do": "small", "cell": 0}],
+                           dt_ns=100, S_ns=200, T_ns=2500, in_string=True, max_iter=200))
     return out
 
 
